@@ -77,7 +77,8 @@ structure Cfg where
   beh : Nat → Nat → Nat → Outcome
   maxRetries : Nat
   failedThreshold : Nat
-  /-- `State.WritePayload` does nothing when the payload is already stored -/
+  /-- `State.WritePayload` does nothing when the payload event of THIS transaction was saved before
+      (recorded per transaction ref in the write transaction; the payload store itself is keyed by payload hash) -/
   skipPresent : Bool
   /-- the write-back of `notifyNow` does not re-create a job that was removed while the receiver ran -/
   writeBackSkipsGone : Bool
@@ -108,6 +109,8 @@ def Entry.completes (s r : Nat) : Entry → Bool
 structure St where
   dag : List Nat := []
   payloads : List Nat := []
+  /-- refs whose payload event has been saved (shelf "payloadEvents") -/
+  evented : List Nat := []
   shelf : Nat → Nat → Option Job := fun _ _ => none
   running : List Task := []
   pending : List (Nat × EvType) := []
@@ -228,21 +231,23 @@ def addTx (c : Cfg) (σ : St) (a : AddArgs) : St × Status :=
   else if a.commitFail then (σ, .errCommit)
   else
     let σ1 := if a.withPayload then
-        saveEvent c { σ with dag := a.ref :: σ.dag, payloads := c.phash a.ref :: σ.payloads,
+        saveEvent c { σ with dag := a.ref :: σ.dag, payloads := c.phash a.ref :: σ.payloads, evented := a.ref :: σ.evented,
                              admitted := (a.ref, .payload) :: σ.admitted } (a.ref, .payload)
       else { σ with dag := a.ref :: σ.dag }
     let σ2 := saveEvent c { σ1 with admitted := (a.ref, .tx) :: σ1.admitted } (a.ref, .tx)
     ({ σ2 with pending := σ2.pending ++ ((a.ref, EvType.tx) :: (if a.withPayload then [(a.ref, EvType.payload)] else [])) }, .ok)
 
 /-- handleTransactionPayload up to the commit of State.WritePayload: the transaction must be on the DAG;
-    (fixed code) nothing happens when the payload is already stored; else save the payload event and the payload
+    (fixed code) nothing happens when the payload event of this transaction was saved before; else save the payload
+    event, the marker and the payload
     (one atomic write transaction) -/
 def writePayload (c : Cfg) (σ : St) (ref : Nat) (commitFail : Bool) : St × Status :=
   if ref ∉ σ.dag then (σ, .errNotFound)
   else if commitFail then (σ, .errCommit)
-  else if c.skipPresent = true ∧ c.phash ref ∈ σ.payloads then (σ, .skipped)
+  else if c.skipPresent = true ∧ ref ∈ σ.evented then (σ, .skipped)
   else
-    let σ1 := saveEvent c { σ with payloads := c.phash ref :: σ.payloads, admitted := (ref, .payload) :: σ.admitted } (ref, .payload)
+    let σ1 := saveEvent c { σ with payloads := c.phash ref :: σ.payloads, evented := ref :: σ.evented,
+                                   admitted := (ref, .payload) :: σ.admitted } (ref, .payload)
     ({ σ1 with pending := σ1.pending ++ [(ref, EvType.payload)] }, .ok)
 
 /-- Notifier.Finished called from outside the notifier; `fail` = the shelf write fails.
